@@ -489,11 +489,10 @@ def run(index: RepoIndex, rep) -> None:
 
     # components obtained by name keep every accepted parameter (zero values included)
     sk = index.func('gym_gridverse/utils/functions.py', 'select_kwargs')
-    b = sk.body()
-    kp, ks = [a.arg for a in sk.node.args.args[:2]]
-    rep.check(len(b) == 1 and src(b[0]) ==
-              f'return {{key: value for key, value in {kp}.items() if key in {ks}}}', 'C12.R4',
-              'gym_gridverse/utils/functions.py', 'select_kwargs', sk.node.lineno, src(b[-1]),
+    from .c17 import select_kwargs_ok
+    rep.check(select_kwargs_ok(sk), 'C12.R4',
+              'gym_gridverse/utils/functions.py', 'select_kwargs', sk.node.lineno,
+              'select_kwargs',
               'select_kwargs does not keep exactly the accepted parameters: e.g. a reward '
               'configured as 0.0 would silently fall back to its non-zero default',
               'parameters reach the component')
